@@ -291,7 +291,10 @@ def run_chunk(job):
     out = {'records': [], 'stats': [], 'errors': []}
     cur = frm
     guard = 0
-    while cur < end and guard < 200:
+    hangs = 0
+    # a chunk is abandoned after a dozen crashes or two hangs: the candidates it produced are evidence enough, and a
+    # broken library must not be able to stall a check for hours
+    while cur < end and guard < 12 and hangs < 2:
         guard += 1
         args = ['run', '--prop', prop, '--seed', str(seed), '--from', str(cur), '--count', str(end - cur)]
         if thorough:
@@ -317,6 +320,8 @@ def run_chunk(job):
             out.setdefault('case_files', []).append(cp)
         if crash:
             out['records'].append(crash)
+            if crash.get('class') == 'crash:hang':
+                hangs += 1
             cur = crash['run'] + 1
             continue
         if rc != 0 or stats is None:
@@ -445,9 +450,10 @@ def strip_faults(plan_lines):
 def minimise(binary, prop, plan, env, env2, avoid, known, sig, budget=400):
     """ddmin over steps, then per-step simplification, keeping the same signature."""
     tries = [0]
+    deadline = time.time() + float(os.environ.get('VERIF_MINIMISE_SECONDS', '150'))
 
     def same(p):
-        if tries[0] >= budget or not p:
+        if tries[0] >= budget or not p or time.time() > deadline:
             return False
         tries[0] += 1
         r = exec_plan(binary, prop, p, env, env2, avoid, known)
